@@ -281,3 +281,35 @@ package parser
 //@ requires p != nil && p.authorizerParser != nil
 //@ modifies nothing
 //@ ensures wf: err == nil ==> pFactsWF(res.Block.Facts) && pRulesWF(res.Block.Rules) && pChecksWF(res.Block.Checks) && pPoliciesWF(res.Policies)
+
+//@ func New() (res Parser)
+//@ serves C10 C14
+//@ modifies nothing
+//@ ensures res is *parser && res.(*parser) != nil && fresh(res.(*parser)) && res.(*parser).factParser != nil && res.(*parser).ruleParser != nil && res.(*parser).checkParser != nil && res.(*parser).policyParser != nil && res.(*parser).blockParser != nil && res.(*parser).authorizerParser != nil
+
+//@ func FromStringFactWithParams(input string, parameters ParametersMap) (res biscuit.Fact, err error)
+//@ serves C10 C14
+//@ modifies nothing
+
+//@ func FromStringRuleWithParams(input string, parameters ParametersMap) (res biscuit.Rule, err error)
+//@ serves C10 C14
+//@ modifies nothing
+//@ ensures wf: err == nil ==> pRuleWF(res)
+
+//@ func FromStringCheckWithParams(input string, parameters ParametersMap) (res biscuit.Check, err error)
+//@ serves C10 C14
+//@ modifies nothing
+//@ ensures wf: err == nil ==> pRulesWF(res.Queries)
+
+//@ func FromStringPolicyWithParams(input string, parameters ParametersMap) (res biscuit.Policy, err error)
+//@ serves C10 C14
+//@ modifies nothing
+//@ ensures wf: err == nil ==> pRulesWF(res.Queries)
+
+//@ func FromStringBlockWithParams(input string, parameters ParametersMap) (res biscuit.ParsedBlock, err error)
+//@ serves C10 C14
+//@ modifies nothing
+
+//@ func FromStringAuthorizerWithParams(input string, parameters ParametersMap) (res biscuit.ParsedAuthorizer, err error)
+//@ serves C10 C14
+//@ modifies nothing
